@@ -306,8 +306,8 @@ def run_case(case, ctx):
                 warnings.simplefilter("ignore")
                 for _ in range(times):
                     mod.sensitivity()
-        except RuntimeError as e:
-            if cfg.key.startswith("EigenSolve/sparse") and "exactly singular" in str(e):
+        except (RuntimeError, np.linalg.LinAlgError) as e:
+            if cfg.key.startswith("EigenSolve/sparse") and ("exactly singular" in str(e) or "Singular matrix" in str(e)):
                 # listed finding of C01 (the call does not complete); C04 says nothing about calls that raise
                 raise Skip("sparse eigenvector adjoint raised 'exactly singular' (known finding of C01)")
             raise
